@@ -158,7 +158,27 @@ func c17Sequential(r *zsim.Run) {
 			return
 		}
 		k := keys[o.Intn(len(keys))]
-		switch o.Intn(9) {
+		if o.Intn(2) == 0 {
+			// half of the time the operation goes to a key that may be expiring right now, if there is one
+			var due []string
+			for _, kk := range keys {
+				if e := model[kk]; e != nil && r.Now() >= mustUntil(e) && r.Now() <= mayUntil(e) {
+					due = append(due, kk)
+				}
+			}
+			if len(due) > 0 {
+				k = due[o.Intn(len(due))]
+				r.Probe("operation_on_a_key_that_may_be_expiring")
+			}
+		}
+		switch o.Intn(10) {
+		case 9: // replace: Del and Set of the same key back to back (a pending expiry of the old entry must not touch the new one)
+			nextVal++
+			c.Del(k)
+			drop(k)
+			c.Set(k, nextVal)
+			r.Logf("del+set %s=%d", k, nextVal)
+			insert(k, nextVal, expire)
 		case 0, 1: // Set
 			nextVal++
 			c.Set(k, nextVal)
